@@ -44,10 +44,18 @@ def make_base(ctx, k, long=False):
         if j in headless:
             st["plan"] = {"crash": ctx.rng.choice([5, 6])}
         steps += [{"op": "mktree", "path": "src", "tree": t}, {"op": "walk"}, st]
+    orphans = (k % 4 == 3) and not long
+    if orphans:
+        # blocks nothing refers to, left by an earlier delete that was killed after it had removed a version's directory and
+        # before it removed the blocks: one more version with a file of its own, then only its directory goes
+        tx = json.loads(json.dumps(trees[-1]))
+        tx["c"]["only-in-the-lost-version"] = {"k": "f", "data": gen.rand_bytes(ctx.rng, 11).hex(), "mode": 0o644, "mtime": 10**18 + 77}
+        steps += [{"op": "mktree", "path": "src", "tree": tx}, {"op": "walk"}, {"op": "backup", "opts": combo or scen.small_opts(ctx.rng)},
+                  {"op": "damage", "file": "b%04d" % nb, "kind": "rmdir"}]
     steps.append({"op": "arch"})
     for b in range(nb):
         steps.append({"op": "restore", "band": b, "dest": f"ref{b}"})
-    return {"id": f"D{k}", "nb": nb, "trees": trees, "steps": steps, "headless": headless, "combo": combo is not None, "long": long}
+    return {"id": f"D{k}", "nb": nb, "trees": trees, "steps": steps, "headless": headless, "combo": combo is not None, "long": long, "orphans": orphans}
 
 
 def after_steps(nb):
@@ -115,7 +123,7 @@ def check_after(ctx, base, ids, dry, rules_desc, r_del, post, kind, pre_arch):
 
 def run(ctx):
     quick = ctx.tier == "quick"
-    bases = [make_base(ctx, k) for k in range(3 if quick else 40)]
+    bases = [make_base(ctx, k) for k in range(4 if quick else 40)]
     bases += [make_base(ctx, len(bases) + j, long=True) for j in range(1 if quick else 4)]
     ctx.cov["rule"] = ("archives from histories of 2-4 versions x subsets of versions to delete (none = pure gc, some, all) x {dry-run, real}; for real "
                        "runs EVERY crash point of the delete's storage trace and EVERY single failing read/list operation; oracle: exactly the "
@@ -225,9 +233,15 @@ def run(ctx):
         for c, r, inf in by_base[b["id"]]:
             scen.collect_names(names, c["steps"], r)
         base = l4.History(b["id"], names)
+        resync = False
         for st, rs in zip(b["steps"], b["ref"]):
             if st["op"] == "backup" and st.get("plan") and rs.get("crashed"):
                 base.add(st, rs, mode=1, crash=(st["plan"]["crash"], False))
+            elif st["op"] == "damage":
+                resync = True            # the model takes the archive as the independent reader finds it afterwards
+            elif st["op"] == "arch" and resync:
+                base.set_state_from_arch(rs["arch"])
+                resync = False
             elif st["op"] not in ("arch", "restore"):
                 base.add(st, rs)
         hs.append(base)
